@@ -70,6 +70,7 @@ type Scenario struct {
 	// Latency: one-way delay of a request in virtual time (nil or 0: delivered at the instant it was sent)
 	Latency                func(w *World, from, to int, kind string) time.Duration
 	Fine                   bool // branch on thread steps (preemption bounded)
+	FineEnv                bool // fine mode: message deliveries / replies are also offered while threads are still runnable
 	RCL                    bool // RestoreCommittedLogs
 	NoStoreFaultBeforeStep int  // store faults only count from this script position on
 }
@@ -192,6 +193,7 @@ type World struct {
 	crashMid      bool              // the crash in progress happens inside a storage operation
 	holdResp      func(m *Msg) bool // scripted fault: withhold matching responses
 	randExtra     map[int]int64     // per node: answer of rand.Int63() (timeout jitter)
+	inj           injState
 }
 
 func (w *World) logf(f string, a ...any) {
@@ -395,12 +397,23 @@ func (w *World) CrashNow(node int) {
 	vsched.Halt()
 }
 
-func (w *World) OnStoreLogs(node int, logs []*raft.Log) { w.mon.OnStoreLogs(node, logs) }
+func (w *World) OnStoreLogs(node int, logs []*raft.Log) {
+	if w.keepTr {
+		var sb strings.Builder
+		for _, l := range logs {
+			fmt.Fprintf(&sb, " %d/t%d/%d", l.Index, l.Term, l.Type)
+		}
+		w.logf("   n%d StoreLogs%s", node, sb.String())
+	}
+	w.mon.OnStoreLogs(node, logs)
+}
 func (w *World) OnDeleteRange(node int, min, max uint64, removed []*raft.Log) {
+	w.logf("   n%d DeleteRange(%d,%d) removed %d", node, min, max, len(removed))
 	w.mon.OnDeleteRange(node, min, max, removed)
 }
 func (w *World) OnStableSet(node int, key string, val []byte) { w.mon.OnStableSet(node, key, val) }
 func (w *World) OnSnapshotDurable(node int, meta raft.SnapshotMeta, data []byte) {
+	w.logf("   n%d snapshot durable: index %d term %d cfg@%d", node, meta.Index, meta.Term, meta.ConfigurationIndex)
 	w.mon.OnSnapshotDurable(node, meta, data)
 }
 
@@ -730,6 +743,10 @@ func (w *World) envOptions() []envOpt {
 			}
 		}
 	}
+	// an injected isolation ends (default) once it has lasted long enough
+	if h := w.injectHeal(); h != nil {
+		addDef(*h)
+	}
 	// 0. urgent scripted step
 	if w.stepPos < len(w.sc.Steps) && w.sc.Steps[w.stepPos].Urgent {
 		st := w.sc.Steps[w.stepPos]
@@ -896,6 +913,9 @@ func (w *World) envOptions() []envOpt {
 				alts = append(alts, envOpt{label: fmt.Sprintf("crash n%d", n.id), cost: 1, do: func() { n.crashedByDev = true; w.crash(n) }})
 			}
 		}
+	}
+	if devs&DevInject != 0 && !w.noDevs {
+		alts = append(alts, w.injectOptions()...)
 	}
 	if len(def) == 0 {
 		return nil
